@@ -20,6 +20,9 @@ ROUTES = ('sizes', 'shape', 'data', 'from_data', 'backend')
 
 
 def build(route, T, Fc, asc, df, dt, fch1):
+    if route == 'ctor_flagforms':
+        # the orientation flag as NumPy hands it over (np.bool_ from a comparison such as header foff > 0), or as 0 / 1
+        return F.Frame(fchans=Fc, tchans=T, df=df, dt=dt, fch1=fch1, ascending=(np.bool_(asc) if T % 2 else int(asc)))
     if route == 'sizes':
         return F.Frame(fchans=Fc, tchans=T, df=df, dt=dt, fch1=fch1, ascending=asc)
     if route == 'shape':
@@ -476,6 +479,8 @@ def replay_axes(p):
 
 
 def build_real(stg, route, T, Fc, asc, df, dt, fch1):
+    if route == 'ctor_flagforms':
+        return stg.Frame(fchans=Fc, tchans=T, df=df, dt=dt, fch1=fch1, ascending=(np.bool_(asc) if T % 2 else int(asc)))
     if route == 'sizes':
         return stg.Frame(fchans=Fc, tchans=T, df=df, dt=dt, fch1=fch1, ascending=asc)
     if route == 'shape':
@@ -606,7 +611,7 @@ def main():
     jobs = []
     for (T, Fc) in sizes:
         for asc in (False, True):
-            for route in ('sizes', 'shape', 'data', 'from_data'):
+            for route in ('sizes', 'shape', 'data', 'from_data') + (('ctor_flagforms',) if Fc > 1 else ()):
                 jobs.append(('job_axes', (T, Fc, asc, route)))
             jobs.append(('job_fp_lengths', (T, Fc, asc)))
             for geom in (None, 'g1', 'g2', 'g3'):
